@@ -416,6 +416,46 @@ fn check_log_case(c: &LogCase, out: &Outcome<LogObs>) -> Option<(String, String)
     None
 }
 
+/// `with_common` called for two triggers: a step is logged whenever either fires (rules add up).
+fn check_with_common(n: u32, a: u32, b: u32) -> Option<(String, String)> {
+    let rec = Arc::new(Mutex::new(Rec::default()));
+    let snap: Box<dyn Component<TagP>> = Box::new(Snap { rec: rec.clone() });
+    let config = Configuration::<TagP>::builder().while_(LessThanN::iterations(n), |bld| bld.do_(Box::new(Bump)).do_(snap).do_(Logger::new())).build();
+    let r = catch(|| {
+        config.optimize_with(&TagP, |st| {
+            st.insert(mahf::Random::new(1));
+            st.insert(Ctr(10));
+            st.insert(mahf::state::common::Progress::<ValueOf<Ctr>>::default());
+            st.insert(mahf::state::common::Evaluations(0));
+            st.configure_log(|cfg| {
+                cfg.with_common(EveryN::iterations(a));
+                cfg.with_common(EveryN::iterations(b));
+                Ok(())
+            })
+        })
+    });
+    let ctx = |w: String| format!("with_common(EveryN::iterations({})) and with_common(EveryN::iterations({})), logger in the body of a loop of {} passes: {}", a, b, n, w);
+    let st = match r {
+        Err(p) => return Some(("C15 log with_common panic".into(), ctx(p))),
+        Ok(Err(e)) => return Some(("C15 log with_common error".into(), ctx(format!("{:#}", e)))),
+        Ok(Ok(st)) => st,
+    };
+    let snaps = rec.lock().unwrap().snaps.clone();
+    let expected: Vec<u32> = snaps.iter().map(|s| s.1).filter(|it| it % a == 0 || it % b == 0).collect();
+    let log = serde_json::to_value(&*st.log()).unwrap_or(Value::Null);
+    let got: Vec<u32> = log
+        .as_array()
+        .cloned()
+        .unwrap_or_default()
+        .iter()
+        .map(|step| step.as_array().cloned().unwrap_or_default().iter().find(|e| e["name"].as_str() == Some(name_it())).and_then(|e| e["value"].as_u64()).unwrap_or(u64::MAX) as u32)
+        .collect();
+    if got != expected {
+        return Some(("C15 log with_common step-set".into(), ctx(format!("steps were logged at iterations {:?}; one of the two triggers fires at iterations {:?}", got, expected))));
+    }
+    None
+}
+
 pub fn log_cases(thorough: bool) -> Vec<LogCase> {
     let mut all_rules: Vec<Rule> = (0..4u8).flat_map(|t| (0..4u8).map(move |e| (t, e))).collect();
     // a state whose serialised value leaves [0, 1]
@@ -516,6 +556,7 @@ pub fn run(rep: &mut Report) {
     let thorough = rep.tier == Tier::Thorough;
     rep.alpha("log: all rule sets of <= 2 (quick) / 3 (thorough) rules over triggers {every iteration, never, every second iteration, scripted} x extractors {present state via ValueOf, missing state, iteration counter, the present state again via IdLens (repeated name)} x logger placements {in the loop body, after the loop, inside a scope in the loop, twice in the loop body} x 0..3 iterations; scripted triggers answer by explorer choice");
     rep.alpha("log export: to_json and to_cbor of every distinct log produced, decoded back (name table re-expanded)");
+    rep.alpha("with_common for two triggers (5 trigger pairs); par_experiment log files for problem names with and without dots");
     rep.alpha("configuration export: RON of every generated configuration tree (all leaf effects up to 3 / 4 nodes, shapes up to 4 / 5 nodes), of all 21 templates in every parameter set of the run table, of a base parameter set and every one-parameter-apart variant per template, and of clones; Configuration::to_ron into a file for every template");
     rep.assume("logger placements in configurations without any loop have no iteration count to report and are outside the alphabet; scopes with initialiser/merger functions are outside the export alphabet (function pointers are not serialised)");
 
@@ -562,6 +603,20 @@ pub fn run(rep: &mut Report) {
     for s in subs {
         part.absorb(s);
     }
+    for (n, a, b) in [(7u32, 2u32, 3u32), (10, 3, 4), (6, 1, 5), (9, 4, 4), (5, 7, 2)] {
+        part.transitions += n as u64;
+        part.traces += 1;
+        part.states += 1;
+        if let Some((sg, d)) = check_with_common(n, a, b) {
+            part.violate(sg, d, json!({"kind": "with_common", "n": n, "a": a, "b": b}));
+        }
+    }
+    // the batch runner writes one log file per (problem, run), also for problem names that contain dots
+    for (sg, d) in crate::props::c08::check_par_experiment_named(3, &["sphere_shift0.25", "berlin52.tsp", "plain"]) {
+        part.violate(sg, d, json!({"kind": "exp-names"}));
+    }
+    part.transitions += 9;
+    part.traces += 1;
     part.bound("distinct_logs_exported_and_decoded", distinct.lock().unwrap().len() as u64);
     part.sample(json!({"rules": [["every iteration", "ValueOf<Ctr>"], ["scripted", "ValueOf<Missing>"]], "placement": "inside a scope in the loop", "iterations": 2}));
     part.require_outcomes(3);
@@ -742,6 +797,8 @@ pub fn run(rep: &mut Report) {
 
 pub fn replay(case: &Value) -> Result<Vec<(String, String)>, String> {
     match case["kind"].as_str().unwrap_or("") {
+        "with_common" => Ok(check_with_common(case["n"].as_u64().unwrap_or(7) as u32, case["a"].as_u64().unwrap_or(2) as u32, case["b"].as_u64().unwrap_or(3) as u32).into_iter().collect()),
+        "exp-names" => Ok(crate::props::c08::check_par_experiment_named(3, &["sphere_shift0.25", "berlin52.tsp", "plain"])),
         "log" => {
             let rules: Vec<Rule> = case["rules"].as_array().ok_or("no rules")?.iter().map(|r| (r[0].as_u64().unwrap() as u8, r[1].as_u64().unwrap() as u8)).collect();
             let c = LogCase { rules, placement: case["placement"].as_u64().unwrap_or(0) as u8, n: case["n"].as_u64().unwrap_or(0) as u32, many: case["many"].as_bool().unwrap_or(false) };
